@@ -226,6 +226,45 @@ def run(check):
                       '(`%s`) and used by other methods, but setCapacityAndFillRate does not recompute it: after the limits are changed '
                       'at shutdown the bucket keeps waiting/granting by the old rate' % (d, short(n)), construct='%s not refreshed' % d)
 
+  # ------------------------------------------------------------------ the only run-time change of the limits is the configured one
+  from ..rulelib import ValueNumbers
+  from ..paths import mentions
+  for f in check.repo.all_functions():
+    if f.module.name.startswith('carbon.tests'):
+      continue
+    for c in [n for n in walk_no_nested(f.node, include_self=False) if isinstance(n, ast.Call)]:
+      if isinstance(c.func, ast.Attribute) and c.func.attr == 'setCapacityAndFillRate' and (f.cls is None or f.cls.name != 'TokenBucket'):
+        vn_f = ValueNumbers(cx, f)
+        for a in c.args[:2]:
+          t_ = vn_f.term(a, c)
+          configured = isinstance(t_, tuple) and t_[0] in ('attr', 'sub', 'field') and t_[-1] == 'MAX_UPDATES_PER_SECOND_ON_SHUTDOWN' and \
+            not mentions(t_, lambda x: isinstance(x, tuple) and x[0] in ('meth', 'call'))
+          if configured:
+            r_set.ok('limits changed at run time to settings.MAX_UPDATES_PER_SECOND_ON_SHUTDOWN only', f.loc(c))
+          else:
+            r_set.violate('limits changed to something not configured', f, c, '`%s` re-rates a bucket with `%s`, which is not the '
+                          'configured settings.MAX_UPDATES_PER_SECOND_ON_SHUTDOWN read directly (absent = no change): with a fallback '
+                          'value the create bucket is re-rated too, to a limit nobody configured' % (short(c), unparse(a)))
+  # ------------------------------------------------------------------ a blocking acquisition waits until the tokens are there
+  dr = tb.methods.get('drain')
+  if dr is not None:
+    gd_ = cx.cfg(dr)
+    sleeps = nodes_calling(gd_, lambda c: (dotted(c.func) or '').split('.')[-1] == 'sleep' and len(c.args) == 1)
+    vn_d = ValueNumbers(cx, dr)
+    for sn in sleeps:
+      call = [c for c in gd_.calls(sn) if (dotted(c.func) or '').split('.')[-1] == 'sleep'][0]
+      t_ = vn_d.term(call.args[0], sn)
+      capped = mentions(t_, lambda x: isinstance(x, tuple) and x[0] == 'call' and x[1] in ('min', 'max'))
+      uses_rate = mentions(t_, lambda x: isinstance(x, tuple) and x[0] == 'attr' and x[-1] == 'fill_rate')
+      uses_tokens = mentions(t_, lambda x: isinstance(x, tuple) and x[0] == 'attr' and x[-1] == '_tokens')
+      if uses_rate and uses_tokens and not capped:
+        r_chg = r_set
+        r_set.ok('blocking drain sleeps for the whole deficit / fill_rate', dr.loc(call))
+      else:
+        r_set.violate('blocking drain does not wait for its tokens', dr, call, 'the blocking branch of drain() sleeps for `%s`, not for the '
+                      'time the missing tokens take to accrue (deficit / fill_rate, uncapped): with a rate below one token per cap '
+                      'interval every blocked grant returns early and the long-run rate exceeds the configured one' % unparse(call.args[0]))
+
   # ------------------------------------------------------------------ config
   r_cfg = check.rule('R-C20-config', 2, 'buckets built from MAX_CREATES_PER_MINUTE/60 and MAX_UPDATES_PER_SECOND')
   _config_rule(cx, r_cfg, mod)
